@@ -90,8 +90,8 @@ def extreme_specs(ctx, tag, *, constraint=0.5, n_fast=60, n_slow=14, rounds=1):
                 space = {"x%d" % d: np.arange(sizes[d]) * rng.choice([1, 1, 2]) - rng.choice([0, 3]) for d in range(nd)}
                 ok = set(inspect.signature(gen.opt_class(name).__init__).parameters)
                 cfg2 = {k: v for k, v in cfg.items() if k in ok}
-                if rng.random() < 0.4:
-                    cfg2["rand_rest_p"] = rng.choice([0.05, 0.3])
+                if rng.random() < 0.4 or (name in gen.POPULATION and cfg is EXTREME[name][0]):
+                    cfg2["rand_rest_p"] = rng.choice([0.05, 0.3]) if name not in gen.POPULATION else 0.3   # every population optimizer once with restarts
                 spec = dict(name=name, space=space, table=LazyTable(space), calls=[dict(n_iter=(n_fast if not slow else n_slow), memory=False, verbosity=False)],
                             seed=rng.randrange(10 ** 6), init={"random": rng.choice([2, 4]), "vertices": rng.choice([0, 2])}, cfg=cfg2,
                             meta=[("int", "asc", n) for n in sizes], steps_api=True, feasible=None)
